@@ -65,6 +65,10 @@ func (p *IdentityProvider) attributeQueryHandleFunc(w http.ResponseWriter, r *ht
 	// get persisted service provider from issuer out of the request
 	checkerInstance.WithLogicStep(
 		func() error {
+			if attrQuery.Issuer == nil {
+				err = fmt.Errorf("issuer is missing in request")
+				return err
+			}
 			sp, err = p.GetServiceProvider(r.Context(), attrQuery.Issuer.Text)
 			if err != nil {
 				return err
